@@ -1276,20 +1276,44 @@ public:
     CRAB_LOG("backward-tr", crab::outs() << "\tPRE=" << m_pre << "\n");
   }
 
-  // NOT IMPLEMENTED
-  virtual void exec(region_init_t &stmt) override {}
-  virtual void exec(region_copy_t &stmt) override {}
-  virtual void exec(region_cast_t &stmt) override {}  
-  virtual void exec(make_ref_t &stmt) override {}
-  virtual void exec(remove_ref_t &stmt) override {}  
-  virtual void exec(load_from_ref_t &stmt) override {}
-  virtual void exec(store_to_ref_t &stmt) override {}
-  virtual void exec(gep_ref_t &stmt) override {}
-  virtual void exec(assume_ref_t &stmt) override {}
-  virtual void exec(assert_ref_t &stmt) override {}
-  virtual void exec(select_ref_t &stmt) override {}
-  virtual void exec(int_to_ref_t &stmt) override {}
-  virtual void exec(ref_to_int_t &stmt) override {}
+  // The backward semantics of the region and reference statements is
+  // not implemented precisely. Leaving the abstract state unchanged
+  // is not a necessary precondition (the variable written by the
+  // statement has, in general, another value before the statement),
+  // so the written variable is forgotten.
+  virtual void exec(region_init_t &stmt) override { m_pre -= stmt.region(); }
+  virtual void exec(region_copy_t &stmt) override {
+    m_pre -= stmt.lhs_region();
+  }
+  virtual void exec(region_cast_t &stmt) override { m_pre -= stmt.dst(); }
+  virtual void exec(make_ref_t &stmt) override { m_pre -= stmt.lhs(); }
+  virtual void exec(remove_ref_t &stmt) override {}
+  virtual void exec(load_from_ref_t &stmt) override { m_pre -= stmt.lhs(); }
+  virtual void exec(store_to_ref_t &stmt) override { m_pre -= stmt.region(); }
+  virtual void exec(gep_ref_t &stmt) override { m_pre -= stmt.lhs(); }
+  // similar to assume(c)
+  virtual void exec(assume_ref_t &stmt) override {
+    m_pre.ref_assume(stmt.constraint());
+  }
+  // similar to assert(c)
+  virtual void exec(assert_ref_t &stmt) override {
+    if (!m_ignore_assert) {
+      if (m_good_states) {
+        m_pre.ref_assume(stmt.constraint());
+      } else {
+        // the error states are the states that satisfy "not c" (see
+        // assert_t). Without this, a reference assertion is never
+        // an error for the backward analysis and it can be
+        // discharged although it is violated.
+        abs_dom_t error = m_pre.make_top();
+        error.ref_assume(stmt.constraint().negate());
+        m_pre |= error;
+      }
+    }
+  }
+  virtual void exec(select_ref_t &stmt) override { m_pre -= stmt.lhs_ref(); }
+  virtual void exec(int_to_ref_t &stmt) override { m_pre -= stmt.ref_var(); }
+  virtual void exec(ref_to_int_t &stmt) override { m_pre -= stmt.int_var(); }
 
   /// -- Call and return can be redefined by derived classes
 
